@@ -292,7 +292,7 @@ func Generate(r *rand.Rand, sz Size) *Model {
 		typeItems = append(typeItems, Item{Kind: "type", Type: t})
 	}
 	// path groups
-	segs := []string{"cats", "dogs", "owners", "toys", "v1", "items", "pet_store_items", "x_y", "a__b_", "data-set", "v1.2", "Caps", "~tilde", "caf%C3%A9", "café", "x%5Fy", "a%20b", "50%25"}
+	segs := []string{"cats", "dogs", "owners", "toys", "v1", "items", "pet_store_items", "x_y", "a__b_", "data-set", "v1.2", "Caps", "~tilde", "caf%C3%A9", "café", "x%5Fy", "a%20b", "50%25", "*", "**", "x*", "a*b"}
 	params := []string{"id", "name", "key"}
 	usedPaths := map[string]bool{}
 	definedPrefix := map[string]bool{} // path prefix up to a parameter that already has a definition
